@@ -2,6 +2,7 @@ import XrlParser.Lemmas.Result
 import XrlParser.Lemmas.Invariance
 import XrlParser.Lemmas.Rejects
 import XrlParser.Lemmas.Add
+import XrlParser.Lemmas.Witness
 /-!
 # C07 — the formula parser computes the true composition of every well-formed formula
 
@@ -34,11 +35,12 @@ theorem parse_print_counts (T : Tables) (l : Locale) (f : Formula) (hf : f.WF (e
       cd.nAtomsAll = sumL cd.nAtoms ∧
       cd.molarMass = sumL (cd.elements.map (fun z => atomicWeight T z * f.eval (elementsOf T) z)) := by
   obtain ⟨ca, k, h1, h2⟩ := parseSimple_ok T (f.printL.length + 1) f hf (by omega)
-  refine ⟨_, by simp only [parse, compoundParser, print_toList, h1], ?_⟩
-  refine ⟨pairwise_strictAsc h2.sorted, by simp, ?_, ?_, ?_, ?_⟩
+  refine ⟨mkCD T ca, by rw [parse, print_toList]; exact compoundParser_result_ok T l _ h1, ?_⟩
+  refine ⟨pairwise_strictAsc h2.sorted, by simp [mkCD], ?_, ?_, ?_, ?_⟩
   · intro z
     constructor
     · intro hz
+      change z ∈ ca.map (·.1) at hz
       simp only [List.mem_map] at hz
       obtain ⟨e, he, rfl⟩ := hz
       rw [← entry_eq h2 he]; exact h2.pos e he
@@ -84,8 +86,7 @@ theorem parse_print (T : Tables) (l : Locale) (f : Formula) (hf : f.WF (elements
     · simp only [h0, if_false, Option.some.injEq] at hw1
       rw [hw1]; exact hw2
   have := composition_of_inv (atomicWeight T) h2 hne hwpos
-  refine ⟨_, by simp only [parse, compoundParser, print_toList, h1], this.1, ?_⟩
-  exact this.2
+  exact ⟨mkCD T ca, by rw [parse, print_toList]; exact compoundParser_result_ok T l _ h1, this.1, this.2⟩
 
 /-- **parse_reorder**: reordering the terms of a formula (at any nesting level) does not change the result. -/
 theorem parse_reorder (T : Tables) (l : Locale) {f g : Formula} (h : Reorder f g)
@@ -113,20 +114,20 @@ theorem parse_expand_group (T : Tables) (l : Locale) (pre inner inner' rest : Fo
 theorem parse_rejects_outside_alphabet (T : Tables) (l : Locale) (s : List Char)
     (h : ∃ c ∈ s, inAlphabet c = false) : ∃ e, (compoundParser T l (some s)).result = .error e := by
   obtain ⟨e, he⟩ := parseSimple_alphabet T (s.length + 1) s (by omega) h
-  exact ⟨e.err, by simp only [compoundParser, he]⟩
+  exact ⟨e.err, compoundParser_result_err T l s he⟩
 
 /-- every string with unbalanced parentheses is rejected. -/
 theorem parse_rejects_unbalanced (T : Tables) (l : Locale) (s : List Char) (h : ¬ Balanced s) :
     ∃ e, (compoundParser T l (some s)).result = .error e := by
   obtain ⟨e, he⟩ := parseLevel_unbalanced T (parseSimple T s.length) s h
-  exact ⟨e.err, by simp only [compoundParser, parseSimple, he]⟩
+  exact ⟨e.err, compoundParser_result_err T l s he⟩
 
 /-- every formula-shaped text that is empty or contains an unknown symbol, a zero subscript, a malformed
     subscript (`Sub.junk`: no digit or more than one point) or empty parentheses — at any depth — is rejected. -/
 theorem parse_rejects_invalid (T : Tables) (l : Locale) (f : Formula) (hs : f.Shape)
     (h : f = .nil ∨ ¬ f.Known (elementsOf T)) : ∃ e, (parse T l f.print).result = .error e := by
   obtain ⟨e, he⟩ := parseSimple_invalid T (f.printL.length + 1) f hs h (by omega)
-  exact ⟨e.err, by simp only [parse, compoundParser, print_toList, he]⟩
+  exact ⟨e.err, by rw [parse, print_toList]; exact compoundParser_result_err T l _ he⟩
 
 /-- the rejection clause of the property at full strength: a formula-shaped text that is not a well-formed
     formula over elements with atomic weights is rejected. -/
@@ -141,25 +142,6 @@ theorem parse_accepts_weightless (T : Tables) (l : Locale) (f : Formula) (hf : f
     ∃ cd, (parse T l f.print).result = .ok cd := by
   obtain ⟨cd, h, _⟩ := parse_print_counts T l f hf
   exact ⟨cd, h⟩
-
-/-- a table with the five elements used by the witnesses below; Rf has no weight (as in data/atomicweight.dat) -/
-def T0 : Tables :=
-  { mendel := [(['H'], 1), (['H', 'e'], 2), (['O'], 8), (['M', 'g'], 12), (['R', 'f'], 104)],
-    mendelSorted := [(['H'], 1), (['H', 'e'], 2), (['M', 'g'], 12), (['O'], 8), (['R', 'f'], 104)],
-    weight := [0, 1, 4, 0, 0, 0, 0, 0, 16, 0, 0, 0, 24] }
-
-/-- the witness: `Rf` -/
-def fRf : Formula := .atom ['R', 'f'] .one .nil
-
-theorem fRf_wf : fRf.WF (elementsOf T0) := by
-  refine ⟨by simp [fRf], ⟨Or.inr ⟨'R', 'f', rfl, by decide, by decide⟩, trivial, trivial⟩, ?_, trivial, trivial⟩
-  show (lookupSym T0 ['R', 'f']).isSome = true
-  decide
-
-theorem fRf_not_weighted : ¬ fRf.Weighted (elementsOf T0) := by
-  intro h
-  obtain ⟨w, hw, _⟩ := h 104 (Or.inl (by show lookupSym T0 ['R', 'f'] = some 104; decide))
-  simp [elementsOf, atomicWeight, T0] at hw
 
 /-- the property's rejection clause is **false** for the code as it is: `Rf` is accepted
     (replayed on the library: `parse C Rf` → molarMass 0, mass fraction NaN). -/
@@ -206,53 +188,8 @@ theorem add_compound_spec (A B : CD) (wA wB : Rat) (hA : StrictAsc A.elements) (
     IsWeightedUnion wA wB (cdToComp A) (cdToComp B) (cdToComp (addCompoundData A wA B wB)) :=
   addCompoundData_spec A B wA wB hA hB
 
-/-! ## non-vacuity: the hypotheses instantiated on concrete formulas -/
-
-/-- `Mg(OH)2` -/
-def fMgOH2 : Formula :=
-  .atom ['M', 'g'] .one (.group (.atom ['O'] .one (.atom ['H'] .one .nil)) (.dec ⟨[2], none⟩) .nil)
-/-- `MgO2H2.0` -/
-def fMgO2H2 : Formula :=
-  .atom ['M', 'g'] .one (.atom ['O'] (.dec ⟨[2], none⟩) (.atom ['H'] (.dec ⟨[2], some [0]⟩) .nil))
-/-- `(OH)2Mg` -/
-def fOH2Mg : Formula :=
-  .group (.atom ['O'] .one (.atom ['H'] .one .nil)) (.dec ⟨[2], none⟩) (.atom ['M', 'g'] .one .nil)
-
-theorem two_pos : 0 < (Dec.mk [2] none).value := by
-  simp [Dec.value, Dec.fracDigits, natOfDigits]
-theorem two0_pos : 0 < (Dec.mk [2] (some [0])).value := by
-  simp [Dec.value, Dec.fracDigits, natOfDigits]
-
-theorem symMg : SymShape ['M', 'g'] := Or.inr ⟨'M', 'g', rfl, by decide, by decide⟩
-theorem symO : SymShape ['O'] := Or.inl ⟨'O', rfl, by decide⟩
-theorem symH : SymShape ['H'] := Or.inl ⟨'H', rfl, by decide⟩
-theorem knMg : (lookupSym T0 ['M', 'g']).isSome = true := by decide
-theorem knO : (lookupSym T0 ['O']).isSome = true := by decide
-theorem knH : (lookupSym T0 ['H']).isSome = true := by decide
-
-theorem fMgOH2_wf : fMgOH2.WF (elementsOf T0) :=
-  ⟨by simp [fMgOH2], ⟨symMg, trivial, ⟨symO, trivial, symH, trivial, trivial⟩, by simp [Sub.Shape, Dec.shape, Dec.fracDigits], trivial⟩,
-   knMg, trivial, by simp, ⟨knO, trivial, knH, trivial, trivial⟩, two_pos, trivial⟩
-
-theorem fMgO2H2_wf : fMgO2H2.WF (elementsOf T0) :=
-  ⟨by simp [fMgO2H2], ⟨symMg, trivial, symO, by simp [Sub.Shape, Dec.shape, Dec.fracDigits], symH,
-     by simp [Sub.Shape, Dec.shape, Dec.fracDigits], trivial⟩,
-   knMg, trivial, knO, two_pos, knH, two0_pos, trivial⟩
-
-theorem fOH2Mg_wf : fOH2Mg.WF (elementsOf T0) :=
-  ⟨by simp [fOH2Mg], ⟨⟨symO, trivial, symH, trivial, trivial⟩, by simp [Sub.Shape, Dec.shape, Dec.fracDigits], symMg, trivial, trivial⟩,
-   by simp, ⟨knO, trivial, knH, trivial, trivial⟩, two_pos, knMg, trivial, trivial⟩
-
-theorem zOf_vals : lookupSym T0 ['M', 'g'] = some 12 ∧ lookupSym T0 ['O'] = some 8 ∧ lookupSym T0 ['H'] = some 1 := by
-  refine ⟨?_, ?_, ?_⟩ <;> decide
-
-theorem fMgOH2_weighted : fMgOH2.Weighted (elementsOf T0) := by
-  intro z hz
-  simp only [fMgOH2, Formula.Occurs, elementsOf, zOf_vals.1, zOf_vals.2.1, zOf_vals.2.2, Option.some.injEq, or_false] at hz
-  rcases hz with rfl | rfl | rfl
-  · exact ⟨24, by simp [elementsOf, atomicWeight, T0], by norm_num⟩
-  · exact ⟨16, by simp [elementsOf, atomicWeight, T0], by norm_num⟩
-  · exact ⟨1, by simp [elementsOf, atomicWeight, T0], by norm_num⟩
+/-! ## non-vacuity: the hypotheses instantiated on concrete formulas (table `T0` and the formulas are in
+    Lemmas/Witness.lean) -/
 
 /-- `parse_print` applies to `Mg(OH)2` over `T0` -/
 example : ∃ cd, (parse T0 ⟨['C']⟩ fMgOH2.print).result = .ok cd ∧ (∀ x ∈ cd.massFractions, x.isSome = true) ∧
@@ -272,14 +209,14 @@ example : (parse T0 ⟨['C']⟩ fMgOH2.print).result = (parse T0 ⟨['C']⟩ fMg
   parse_expand_group T0 _ (.atom ['M', 'g'] .one .nil) (.atom ['O'] .one (.atom ['H'] .one .nil))
     (.atom ['O'] (.dec ⟨[2], none⟩) (.atom ['H'] (.dec ⟨[2], some [0]⟩) .nil)) .nil (.dec ⟨[2], none⟩)
     (Scaled.atom _ (by simp [Sub.value, Dec.value, Dec.fracDigits, natOfDigits])
-      (Scaled.atom _ (by simp [Sub.value, Dec.value, Dec.fracDigits, natOfDigits]) Scaled.nil))
+      (Scaled.atom _ (by simp [Sub.value, Dec.value, Dec.fracDigits, natOfDigits]; norm_num) Scaled.nil))
     fMgOH2_wf fMgO2H2_wf
 
 /-- `parse_rejects_outside_alphabet` applies to `"H O"`, `parse_rejects_unbalanced` to `"H(O"` -/
 example : ∃ e, (compoundParser T0 ⟨['C']⟩ (some ['H', ' ', 'O'])).result = .error e :=
   parse_rejects_outside_alphabet T0 _ _ ⟨' ', by simp, by decide⟩
 example : ∃ e, (compoundParser T0 ⟨['C']⟩ (some ['H', '(', 'O'])).result = .error e :=
-  parse_rejects_unbalanced T0 _ _ (by decide)
+  parse_rejects_unbalanced T0 _ _ (by unfold Balanced; decide)
 
 /-- `parse_rejects_invalid` applies to `H(Uu)2` (unknown symbol inside a group), `H0.0` (zero), `H1.2.3` (malformed) -/
 example : ∃ e, (parse T0 ⟨['C']⟩ (Formula.atom ['H'] .one (.group (.atom ['U', 'u'] .one .nil) (.dec ⟨[2], none⟩) .nil)).print).result = .error e :=
